@@ -232,7 +232,7 @@ def classify(diag, text, genmap, byte_of_char=None):
         res["kind"] = "frontend"
     elif "decreases" in low or "termination" in low:
         res["kind"] = "decreases"
-    elif "index out of bounds" in low or "out of bounds" in low:
+    elif "index out of bounds" in low or "out of bounds" in low or "index in bounds" in low:
         res["kind"] = "bounds"
     elif "resource limit" in low or "rlimit" in low:
         res["kind"] = "rlimit"
